@@ -462,6 +462,10 @@ def _nl(xs):
     return "[" + ", ".join(str(x) for x in xs) + "]"
 
 
+def _ident(name: str) -> str:
+    return "".join(ch if ch.isalnum() else "_" for ch in name)
+
+
 def render(data: dict) -> str:
     out = [
         "/- GENERATED by tools/extractors/cache_deps.py from src/mici/systems.py — do not edit.",
@@ -491,7 +495,12 @@ def render(data: dict) -> str:
             )
         )
     out.append(",\n".join(rows))
-    out += ["]", "", "end MiciVerif.Generated", ""]
+    out += ["]", "", "/-! ids of the classes and methods by name (plain constants) -/"]
+    for i, c in enumerate(data["classes"]):
+        out.append(f"def cls_{_ident(c)} : Nat := {i}")
+    for i, m in enumerate(data["methods"]):
+        out.append(f"def m_{_ident(m)} : Nat := {i}")
+    out += ["", "end MiciVerif.Generated", ""]
     return "\n".join(out)
 
 
